@@ -104,8 +104,11 @@ def build():
     u.raw("impl Backend {")
     for nm, fld, val in (("set_reply_ack_flag", "reply_ack_negotiated", "enable"), ("set_shared_object_flag", "shared_object_negotiated", "enable"),
                          ("set_shmem_flag", "shmem_negotiated", "enable"), ("set_failed", "error", "Some(error)")):
+        others = [f for f in ("reply_ack_negotiated", "shared_object_negotiated", "shmem_negotiated", "error", "sock") if f != fld]
+        frame = " && ".join("final(self).inner_.%s == old(self).inner_.%s" % (f, f) for f in others)
         u.extracted_fn(br, nm, within=span0, sig_rw=SIG_RW, body_rw=BODY_RW, contract="""
-        ensures final(self).acq@ == old(self).acq@ + 1, final(self).inner_.%s == %s, final(self).inner_.sock == old(self).inner_.sock // [C10,C18] one acquisition, only this field""" % (fld, val))
+        ensures final(self).acq@ == old(self).acq@ + 1, final(self).inner_.%s == %s, // [C10,C18] one acquisition, this field set
+            %s, // [C07,C18,C14] ... and ONLY this field: no other negotiated flag (gate) changes""" % (fld, val, frame))
     u.raw("}")
     span = br.impl_span(r'^impl VhostUserFrontendReqHandler for Backend$')
     u.raw("impl Backend {")
